@@ -9,6 +9,14 @@ CHECKS = {
  "C03": ("exact", "proven relative bounds 3u^2+13u^3 / 2u^2 checked exactly (|r - (a±b)| <= beta|a±b| in dyadic arithmetic) on constructed cancellation / tie / gap operands; Sum vs explicit left fold bit-for-bit", "5 C03"),
  "C04": ("exact", "proven relative bounds 5u^2 / 2u^2 checked exactly against the exact dyadic product; exact points (x0, x±1, x2^k) compared exactly", "5 C04"),
  "C05": ("exact", "bounds 3u^2 / 16u^2 checked exactly by cross-multiplication |r*b - a| <= beta|a|; a/a == (1,0), /±1, /2^k exact", "5 C05"),
+ "C06": ("exact", "comparison operators / partial_cmp / min / max / abs / signum / copysign against the exact dyadic values; symmetry and NaN rules over a pool of non-finite values produced by the API itself", "5 C06"),
+ "C07": ("exact", "differential oracle: a finite && RN(a+b)==a evaluated on the hardware and by the exact-rounding model, over a complete exponent grid plus threshold-dense generated pairs; round trip of checked construction bit-for-bit", "5 C07"),
+ "C08": ("exact", "reference model: exact floor/ceil/trunc/round-half-away/fract on dyadic rationals; results compared for exact equality, trunc+fract == x", "5 C08"),
+ "C09": ("exact", "round-trip and reference model: exact integer values (8/16-bit exhaustive), trunc + range check computed exactly, all routes (TryFrom by value/ref, ToPrimitive, NumCast, FromPrimitive) compared", "5 C09"),
+ "C10": ("exact", "metamorphic/differential: every spelling of an operation evaluated on the same operands and compared bit-for-bit (NaN == NaN); algebraic identities compared bit-for-bit with the sign-of-zero known finding K1", "5 C10"),
+ "C12": ("exact", "complete enumeration of the constant table against a 640-bit reference (correct rounding of both words); generated operands for MIN <= x <= MAX and the angle conversions (bound 6u^2 against a 384-bit reference)", "5 C12"),
+ "C19": ("exact", "reference model: exact rational quotient (integer division of the dyadic operands) gives trunc/floor/ceil and the near-integer predicate; remainder compared with a - k*b exactly within 16u^2 max(|a|,|b|); integer operands exact", "5 C19"),
+ "C20": ("exact", "round-trip oracles: numerals parsed back with f64::from_str must give the words bit-for-bit; precision forms equal the f64 renderings; serde tokens / value tree / JSON text / serde::de::value deserializers: Ok <=> valid pair, words preserved; malformed shapes rejected", "5 C20"),
 }
 
 LEVEL_TEXT = {
